@@ -67,6 +67,8 @@ func checkC20(c *core.Check) {
 	var groups []driver.Group
 	bases := baseForms()
 	round := 0
+	opSec := map[string]string{}  // "<pkg> <METHOD> <template>" -> required scheme
+	roundPkg := map[int]string{} // round -> package
 	rounds := []struct{ g, procs int }{{16, 1}, {16, 4}, {64, 16}, {32, 4}}
 	if thorough {
 		rounds = nil
@@ -86,15 +88,29 @@ func checkC20(c *core.Check) {
 		id := fmt.Sprintf("cc%d", start/perPkg)
 		base := bases[(start/perPkg)%len(bases)]
 		a := wireCarrier(id, base)
-		for _, k := range good[start:end] {
+		// a third of the operations require the bearer scheme, a third the apiKey scheme, the rest nothing
+		a.Schemes = []aspec.Scheme{{Key: "A", Kind: "bearer"}, {Key: "B", Kind: "apiKeyHeader", Name: "X-Key-B"}}
+		for n, k := range good[start:end] {
 			w := randWireOp(a, k, rand.New(rand.NewSource(seeds[k])))
+			switch n % 3 {
+			case 0:
+				w.op.Security = aspec.Sec{K: "list", List: [][]string{{"A"}}}
+				opSec[id+" "+w.op.Method+" "+aspec.TemplateString(w.tmpl)] = "A"
+			case 1:
+				w.op.Security = aspec.Sec{K: "list", List: [][]string{{"B"}}}
+				opSec[id+" "+w.op.Method+" "+aspec.TemplateString(w.tmpl)] = "B"
+			}
 			a.Paths = append(a.Paths, aspec.PathItem{Template: w.tmpl, Ops: []aspec.Op{w.op}})
 		}
 		jobs = append(jobs, a.Job(id))
-		for _, rd := range rounds {
+		for ri, rd := range rounds {
 			round++
-			groups = append(groups, driver.Group{Pkg: id, Kind: "concurrent", API: driver.APIConfig{Mw: 2, NotFound: true}, Base: base.NF(),
-				Conc: &driver.ConcurrentConfig{Goroutines: rd.g, Calls: 4, Procs: rd.procs, Seed: rng.Int63(), Round: round}})
+			roundPkg[round] = id
+			// 3 middlewares registered one by one leave the slice with spare capacity (len 3, cap 4); 2 do not
+			groups = append(groups, driver.Group{Pkg: id, Kind: "concurrent", Base: base.NF(),
+				API: driver.APIConfig{Mw: 2 + ri%2, NotFound: true, Auth: map[string]bool{"A": true, "B": true}, Schemes: schemeInfos(*a)},
+				Conc: &driver.ConcurrentConfig{Goroutines: rd.g, Calls: 4, Procs: rd.procs, Seed: rng.Int63(), Round: round,
+					Creds: map[string]string{"Authorization": "Bearer valid-A", "X-Key-B": "valid-B"}}})
 		}
 	}
 	sc, err := core.BuildScratch(jobs, true)
@@ -152,13 +168,23 @@ func checkC20(c *core.Check) {
 			calls++
 			op, _ := e["op"].(string)
 			_, tmpl, _ := strings.Cut(op, " ")
-			add(map[string]any{"ev": "Call", "case": cid, "sent": av("sent"), "tmpl": tmpl})
+			// the scheme this operation requires and the tag its handler must see: "<scheme>|<this request's credential>"
+			var rd int
+			fmt.Sscanf(cid, "r%d", &rd)
+			sec, tag := opSec[roundPkg[rd]+" "+op], ""
+			if sec != "" {
+				tag = sec + "|valid-" + sec + "#" + cid
+			}
+			add(map[string]any{"ev": "Call", "case": cid, "sent": av("sent"), "tmpl": tmpl, "sec": sec, "tag": tag})
 		case "MwEnter":
 			add(map[string]any{"ev": "MwEnter", "case": cid, "i": e["i"], "tmpl": e["tmpl"]})
 		case "MwLeave":
 			add(map[string]any{"ev": "MwLeave", "case": cid, "i": e["i"]})
 		case "Handler":
-			add(map[string]any{"ev": "Handler", "case": cid, "tmpl": e["tmpl"]})
+			add(map[string]any{"ev": "Handler", "case": cid, "tmpl": e["tmpl"], "tag": e["tag"]})
+		case "Auth":
+			ok, _ := e["ok"].(bool)
+			add(map[string]any{"ev": "Auth", "case": cid, "s": e["s"], "tok": e["tok"], "ok": ok})
 		case "Parse":
 			ok, _ := e["ok"].(bool)
 			add(map[string]any{"ev": "Parse", "case": cid, "ok": ok, "params": av("params")})
@@ -185,7 +211,7 @@ func checkC20(c *core.Check) {
 	c.Add("distinct_nontrivial", int64(jr.Nontriv))
 	c.Cov["race_reports"] = races
 	c.Cov["exhaustive"] = false
-	c.Cov["rule"] = "TLC (Concurrent) explores every interleaving of 4 requests through Call -> Parse -> Respond -> Return and checks isolation and that shared state is only read; on the code side rounds of 16-64 goroutines x 4 calls drive one API value and one Client value of packed wire operations (parameters, JSON and raw bodies, 2 middlewares) with per-call unique leaves, under GOMAXPROCS 1/4/16 and with yields in the call-backs; the interleaved linearized log is validated by TLC (Trace_Concurrent): every event is a step of its own request's machine, parsed = sent and returned = responded per request; the race detector's reports are counted; non-trivial = completed calls"
+	c.Cov["rule"] = "TLC (Concurrent) explores every interleaving of 4 requests through Call -> Chain -> Auth -> Parse -> Respond -> Return and checks isolation and that shared state (scratch values, the backing array of API.Middlewares) is only read; on the code side rounds of 16-64 goroutines x 4 calls drive one API value and one Client value of packed wire operations (parameters, JSON and raw bodies, a third each secured by a bearer / an apiKey scheme / nothing, 2 or 3 middlewares registered by append so that the slice has spare capacity) with per-call unique leaves and credentials, under GOMAXPROCS 1/4/16 and with yields in the call-backs; the interleaved linearized log is validated by TLC (Trace_Concurrent): every event is a step of its own request's machine, the authenticator that runs is the one of the request's operation with the request's credential, parsed = sent and returned = responded per request; the race detector's reports are counted; non-trivial = completed calls"
 	c.Cov["bounds"] = map[string]any{"rounds": len(kept), "operations": len(good)}
 	for cid, ev := range info {
 		if len(ev) > 5 {
